@@ -34,12 +34,32 @@ def fold(node, env):
                 if fold(kn, env) == k:
                     return fold(vn, env)
         if isinstance(node, ast.Subscript) and not isinstance(node.slice, ast.Slice) and \
-                isinstance(node.value, (ast.Tuple, ast.Call, ast.Name)):
+                isinstance(node.value, (ast.Tuple, ast.List, ast.Call, ast.Name, ast.Attribute)):
             base = fold(node.value, env)
             i = fold(node.slice, env)
-            if isinstance(base, tuple) and isinstance(i, int) and -len(base) <= i < len(base):
+            if isinstance(base, (tuple, range)) and isinstance(i, int) and -len(base) <= i < len(base):
                 return base[i]
         raise _NoFold(t)
+    if isinstance(node, (ast.GeneratorExp, ast.ListComp)) and len(node.generators) == 1 and isinstance(node.generators[0].target, ast.Name) \
+            and not node.generators[0].is_async:
+        # a table built by a comprehension over a closed range / tuple (class-level lookup tables)
+        g = node.generators[0]
+        src = fold(g.iter, env)
+        if not isinstance(src, (tuple, range)) or len(src) > 65536:
+            raise _NoFold(ast.unparse(node))
+        out = []
+        for x in src:
+            env2 = dict(env)
+            env2[g.target.id] = x
+            if all(fold(c, env2) for c in g.ifs):
+                out.append(fold(node.elt, env2))
+        return tuple(out)
+    if isinstance(node, ast.Call) and isinstance(node.func, ast.Name) and node.func.id in ('tuple', 'list', 'len', 'sum') and \
+            node.func.id not in env and len(node.args) == 1 and not node.keywords:
+        a = fold(node.args[0], env)
+        if isinstance(a, (tuple, range)):
+            return {'tuple': tuple, 'list': tuple, 'len': len, 'sum': sum}[node.func.id](a)
+        raise _NoFold(ast.unparse(node))
     if isinstance(node, (ast.Tuple, ast.List, ast.Set)):
         return tuple(fold(e, env) for e in node.elts)
     if isinstance(node, ast.Call) and isinstance(node.func, ast.Name) and node.func.id == 'range' and 'range' not in env and \
@@ -186,23 +206,27 @@ def _nofold(node):
 
 
 def class_constants(prog, ci, first='self'):
-    """Integer constants a method of class `ci` can name: class-level NAME = <int> (as self.NAME / K.NAME / type(self).NAME ...)
-    and module-level NAME = <int>."""
+    """Integer constants (and tuples of integers: lookup tables, also built by a comprehension over a closed range) a method of
+    class `ci` can name: class-level NAME = ... (as self.NAME / K.NAME / type(self).NAME ...) and module-level NAME = ..."""
+    def const(v):
+        return isinstance(v, int) or (isinstance(v, tuple) and all(isinstance(x, int) for x in v))
     env = {}
     for name, node in ci.module.assigns.items():
         try:
-            v = fold(node, {}) if isinstance(node, ast.AST) else None
-        except _NoFold:
+            v = fold(node, env) if isinstance(node, ast.AST) else None
+        except Exception:
             continue
-        if isinstance(v, int):
+        if const(v):
             env[name] = v
     for c in reversed(ci.mro()):
+        body = dict(env)          # a class body sees the names assigned before in the same body as bare names
         for name, node in c.attrs.items():
             try:
-                v = fold(node, env)
-            except _NoFold:
+                v = fold(node, body)
+            except Exception:
                 continue
-            if isinstance(v, int):
+            if const(v):
+                body[name] = v
                 for base in (first, c.name, ci.name, 'type(%s)' % first, '%s.__class__' % first):
                     env['%s.%s' % (base, name)] = v
     return env
